@@ -435,4 +435,14 @@ def angle_between_exact(repo: Repo) -> RuleRun:
 
 angle_between_exact.rule_id = "C17.ANGLE-BETWEEN"
 
-RULES = [purity, position_writers, link_algebra, affine_kinds, mirror_matrix, trig_domain, params_used, owns_geometry, angle_dimension, closest_search, float_stores, who_writes_points, symmetry_exact, angle_between_exact]
+def match_tolerance(repo: Repo) -> RuleRun:
+    """'links or clamps that match no vertex' are refused, those that match are filed under THAT vertex. Same rule as C13.MATCH-TOLERANCE."""
+    from . import c13
+
+    return c13.match_tolerance(repo, PROP, "C17.MATCH-TOLERANCE")
+
+
+match_tolerance.rule_id = "C17.MATCH-TOLERANCE"
+
+
+RULES = [purity, position_writers, link_algebra, affine_kinds, mirror_matrix, trig_domain, params_used, owns_geometry, angle_dimension, closest_search, float_stores, who_writes_points, symmetry_exact, angle_between_exact, match_tolerance]
